@@ -37,13 +37,13 @@ Proof.
 Qed.
 
 Definition xhist : list (N * block) := [(0, xA1); (0, xB3); (0, xB2); (0, xB1)].
-Definition xn : node := history xapply true 100 (init_node xg) xhist.
+Definition xn : node := history xapply true true 100 (init_node xg) xhist.
 
 Example xn_inv : Inv xapply xspent xU xg xn.
 Proof.
-  apply (history_inv xapply 100 xspent xapply_fresh xapply_spent xU xU_inj xg).
+  apply (history_inv xapply 100 true xspent xapply_fresh xapply_spent xU xU_inj xg).
   - apply inv_init; try reflexivity. left. reflexivity.
-  - intros x [<-|[<-|[<-|[<-|[]]]]]; simpl; split; try discriminate; unfold xU; simpl; auto 10.
+  - intros x [<-|[<-|[<-|[<-|[]]]]]; simpl; split; try discriminate; try (right; discriminate); unfold xU; simpl; auto 10.
 Qed.
 
 (** Full statement refuted: a reachable state (all arriving blocks honest-id, numbered > 0,
@@ -55,14 +55,14 @@ Theorem best_is_longest_available_refuted :
     (forall r b r' t, apply r b = Some r' -> spent r' t = spent r t || mem t (txs b)) /\
     (forall a b, U a -> U b -> hash_field a = hash_field b -> a = b) /\
     Inv apply spent U g (init_node g) /\ (forall x, In x l -> U (snd x) /\ no (snd x) <> 0) /\
-    ~ Longest apply (history apply true 100 (init_node g) l).
+    ~ Longest apply (history apply true true 100 (init_node g) l).
 Proof.
   exists xapply, xspent, xU, xg, xhist.
   split; [exact xapply_fresh|]. split; [exact xapply_spent|]. split; [exact xU_inj|].
   split; [apply inv_init; try reflexivity; left; reflexivity|].
   split.
-  { intros x [<-|[<-|[<-|[<-|[]]]]]; simpl; split; try discriminate; unfold xU; simpl; auto 10. }
-  intros HL. set (nn := history xapply true 100 (init_node xg) xhist) in *.
+  { intros x [<-|[<-|[<-|[<-|[]]]]]; simpl; split; try discriminate; try (right; discriminate); unfold xU; simpl; auto 10. }
+  intros HL. set (nn := history xapply true true 100 (init_node xg) xhist) in *.
   assert (A : avail xapply nn xB2).
   { exists xg, [xB1; xB2], [xB1].
     split; [vm_compute; reflexivity|]. split; [vm_compute; discriminate|]. split; [vm_compute; discriminate|].
@@ -77,12 +77,12 @@ Qed.
     restarts consistently on A1 with the longer branch stored; re-delivering B2 is answered
     "already connected" and the node stays on A1 (known finding
     C06:crash-before-reorg-marker-replay-does-not-reorganise). *)
-Definition xm : node := history xapply true 100 (init_node xg) [(0, xA1); (0, xB1)].
+Definition xm : node := history xapply true true 100 (init_node xg) [(0, xA1); (0, xB1)].
 Example xm_inv : Inv xapply xspent xU xg xm.
 Proof.
-  apply (history_inv xapply 100 xspent xapply_fresh xapply_spent xU xU_inj xg).
+  apply (history_inv xapply 100 true xspent xapply_fresh xapply_spent xU xU_inj xg).
   - apply inv_init; try reflexivity. left. reflexivity.
-  - intros x [<-|[<-|[]]]; simpl; split; try discriminate; unfold xU; simpl; auto 10.
+  - intros x [<-|[<-|[]]]; simpl; split; try discriminate; try (right; discriminate); unfold xU; simpl; auto 10.
 Qed.
 
 Theorem crash_replay_converges_refuted :
@@ -92,12 +92,12 @@ Theorem crash_replay_converges_refuted :
     (forall r b r' t, apply r b = Some r' -> spent r' t = spent r t || mem t (txs b)) /\
     (forall a b, U a -> U b -> hash_field a = hash_field b -> a = b) /\
     Inv apply spent U g n /\ U b /\ no b <> 0 /\
-    let n' := fst (add_block apply true 100 n b) in
+    let n' := fst (add_block apply true true 100 n b) in
     hash_field (best n') = hash_field b /\
     match restart true (crash k (dur n) (units_since n n')) with
     | Some (StartOk r) =>
-        snd (add_block apply true 100 r b) = RKnown /\
-        hash_field (best (fst (add_block apply true 100 r b))) <> hash_field (best n')
+        snd (add_block apply true true 100 r b) = RKnown /\
+        hash_field (best (fst (add_block apply true true 100 r b))) <> hash_field (best n')
     | _ => False
     end.
 Proof.
